@@ -5,7 +5,7 @@ import enf_corr as ec
 TRANSLATORS = []
 LEVEL = "proof"
 ASSUMPTIONS = [
-    "auto_build_role_links is on whenever a management call changes the policy (windows with the flag off contain only reloads of the mirrored store); theorem scope: grouping rules of exactly the role definition's size (shorter ones are refused before anything is stored, F27 - proved; longer ones share a link that goes with the last of them, F28 - in the alphabet, covered by the tie and the fresh-enforcer oracle, coherence not proved for them)",
+    "auto_build_role_links is on whenever a management call changes the policy (windows with the flag off contain only reloads of the mirrored store); grouping rules of any size are inside the theorems and the alphabet (shorter than the role definition: refused before anything is stored, F27; longer: truncated to a link that is shared and goes with the last rule having it, F28)",
     "role managers are represented by their link store; Props/C03 proves the managers' answers are a function of it",
     "oracle on the implementation: after every call every decision / has_link / get_roles / get_users over the universe is compared with a freshly constructed Enforcer loaded with the current policy",
 ]
